@@ -101,9 +101,13 @@ var gateGroups = []gateGroup{
 			{fn: "ctlog.LoadLog", what: "start-up verification", effect: effectSuccess, min: 10, tolerated: loadLogTolerated},
 			{fn: "ctlog.openCheckpoint", what: "checkpoint opening", effect: effectSuccess, min: 4},
 		}},
-	{prop: "C03", id: "C03.j", rule: "every failing step of a sequencing round cuts off the lock-backend commit and the success return",
+	{prop: "C03", id: "C03.j", rule: "every failing step of a sequencing round cuts off the lock-backend commit and the success return; the bundle writer, the bundle reader and the (de)compression helpers never return success after a failing step",
 		specs: []gateSpec{
 			{fn: "ctlog.(*Log).sequencePool", what: "sequencing round", effect: effectCalls(true, specLockRepl), min: 8, tolerated: sequenceTolerated},
+			{fn: "ctlog.applyStagedUploads", what: "staged-upload application", effect: effectCalls(false, Callee{pkgErrgroup, "Group", "Wait"}), min: 3},
+			{fn: "ctlog.marshalStagedUploads", what: "bundle serialisation", effect: effectSuccess, min: 4},
+			{fn: "ctlog.compress", what: "compression", effect: effectSuccess, min: 2},
+			{fn: "ctlog.fetchAndDecompress", what: "fetch and decompress", effect: effectSuccess, min: 3},
 		}},
 	{prop: "C01", id: "C01.l", rule: "every failing step of a sequencing round (hashing, signing, staging, tile upload) cuts off the lock-backend commit and the checkpoint publication",
 		specs: []gateSpec{
@@ -144,9 +148,20 @@ var gateGroups = []gateGroup{
 			{fn: "skylight.checkLog", what: "log health check", effect: effectSuccess, min: 5},
 			{fn: "skylight.(witnessHealth).check", what: "witness health check", effect: effectSuccess, min: 3},
 		}},
-	{prop: "C13", id: "C13.l", rule: "every failing step of the local backend's Upload cuts off its success return",
+	{prop: "C11", id: "C11.f", rule: "every failing step of tree-head signing (key hash, signature, encoding) cuts off the successful return of the signed checkpoint",
+		specs: []gateSpec{
+			{fn: "ctlog.signTreeHead", what: "tree-head signing", effect: effectSuccess, min: 4},
+			{fn: "ctlog.hashTreeHead", what: "tree-head hashing", effect: effectSuccess, min: 1},
+		}},
+	{prop: "C07", id: "C07.i", rule: "every failing step of the deduplication cache set-up and lookup cuts off the successful return",
+		specs: []gateSpec{
+			{fn: "ctlog.initCache", what: "cache set-up", effect: effectSuccess, min: 3},
+		}},
+	{prop: "C13", id: "C13.l", rule: "every failing step of the local backend's Upload, of compareFile and of durable.Mkdir cuts off their success return",
 		specs: []gateSpec{
 			{fn: "ctlog.(*LocalBackend).Upload", what: "local upload", effect: effectSuccess, min: 3, tolerated: localUploadTolerated},
+			{fn: "ctlog.compareFile", what: "file comparison", effect: effectSuccess, min: 1},
+			{fn: "durable.Mkdir", what: "durable mkdir", effect: effectSuccess, min: 2, tolerated: mkdirTolerated},
 		}},
 }
 
@@ -180,6 +195,13 @@ func sequenceTolerated(f *Func, s Site) string {
 }
 
 func cleanDirTolerated(f *Func, s Site) string {
+	return ""
+}
+
+func mkdirTolerated(f *Func, s Site) string {
+	if calleeIs(f, s, Callee{"os", "", "Mkdir"}) {
+		return "an already existing directory is the wanted outcome (os.IsExist)"
+	}
 	return ""
 }
 
